@@ -284,7 +284,7 @@ class Walk:
         base = p[:-6] if p.endswith(".moved") else p
         if p in self.tainted or base in self.tainted or (p + ".moved") in self.tainted:
             sig = "pending-ai-lines-edited-by-person-before-next-checkpoint"
-        elif text is not None and (text.startswith("hum-") or self.is_tweak_of_own(text, s)) and \
+        elif text is not None and (text.lstrip().startswith("hum-") or self.is_tweak_of_own(text, s)) and \
                 (p in self.recon_taint or base in self.recon_taint):
             sig = "reconstruction-keeps-ai-on-line-rewritten-by-person"
         elif (kind == "note" and ln in self.overlap.get(sha, {}).get(p, set())) or \
@@ -292,7 +292,7 @@ class Walk:
             sig = "line-added-by-commit-was-modified-again-unstaged"
         elif text is None:
             sig = f"{kind}-lists-line-beyond-file"
-        elif text.startswith("hum-") or any(norm(text) in self.wrote[o] for o in SESS if o != s):
+        elif text.lstrip().startswith("hum-") or any(norm(text) in self.wrote[o] for o in SESS if o != s):
             sig = f"{kind}-credits-foreign-content"
         else:
             sig = f"{kind}-credits-unreported-content"
